@@ -561,3 +561,8 @@ package base
 //@ func (*ti/base.T).AppendHashVariant
 //@   transparent
 //@   ensures[C09] whole(t) ==> exists(i, 0 <= i && i < len(t.variants) && t.variants[i].key == keyvalueT.key && t.variants[i].val == keyvalueT.val && t.variants[i].tType == keyvalueT.tType)
+
+// C24: a signature key is the call-graph key plus a marker for class methods
+//@ func ti/base.SignatureKey
+//@   transparent
+//@   ensures[C24] result == frame + "\x00" + class + "\x00" + method + ite(isStatic, "\x00static", "")
